@@ -209,3 +209,16 @@ func IAdd(a, b T) T {
 	}
 	return App(SInt, "+", a, b)
 }
+
+// Cat builds the concatenation of two byte strings in right-nested normal form:
+// cat(cat(x, y), b) is rewritten to cat(x, cat(y, b)), so that "key under prefix P" is always cat(P, rest).
+func Cat(a, b T) T {
+	if strings.HasPrefix(a.S, "(cat ") {
+		if sx, err := parseSexprs(a.S); err == nil && len(sx) == 1 && len(sx[0].list) == 3 {
+			x := T{S: sx[0].list[1].String(), Sort: SBytes}
+			y := T{S: sx[0].list[2].String(), Sort: SBytes}
+			return Cat(x, Cat(y, b))
+		}
+	}
+	return App(SBytes, "cat", a, b)
+}
